@@ -685,7 +685,7 @@ class VcsShim:
             return "cpe"       # a failure that persists: every attempt at this step fails (a stale lock file, a dead remote)
         return None
 
-    def _run(self, argv, env, stdin=None):
+    def _run(self, argv, env, stdin=None, merge_stderr=False):
         try:
             argv = [str(a) for a in argv]
             if isinstance(stdin, str):
@@ -733,17 +733,19 @@ class VcsShim:
                 full_env.update(self.forward_env)
             try:
                 proc = subprocess.run(argv, cwd=self.cwd, env=full_env, stdout=subprocess.PIPE,
-                                      stderr=subprocess.PIPE, timeout=60,
+                                      stderr=subprocess.STDOUT if merge_stderr else subprocess.PIPE, timeout=60,
                                       **({"input": stdin} if stdin is not None else {"stdin": subprocess.DEVNULL}))
             except subprocess.TimeoutExpired:
                 self.harness_error = "timeout running %r" % (argv,)
                 raise invoker.HarnessError(self.harness_error)
-            rc, out, err = proc.returncode, proc.stdout, proc.stderr
+            rc, out, err = proc.returncode, proc.stdout, proc.stderr or b""
+        if merge_stderr and self.repo is not None and err:
+            out = err + out        # the caller asked for one stream (stderr=STDOUT): what the tool says on stderr comes with it
         ev["rc"] = rc
         return (rc, out, err)
 
     def check_output(self, cmd, env=None, stderr=None, **kw):
-        rc, out, err = self._run(cmd, env, kw.get("input"))
+        rc, out, err = self._run(cmd, env, kw.get("input"), merge_stderr=(stderr == subprocess.STDOUT))
         if rc != 0:
             raise subprocess.CalledProcessError(rc, cmd, output=out, stderr=err)
         return out
@@ -753,7 +755,7 @@ class VcsShim:
         return rc
 
     def run(self, cmd, **kw):  # tolerated alternative spelling
-        rc, out, err = self._run(cmd, kw.get("env"), kw.get("input"))
+        rc, out, err = self._run(cmd, kw.get("env"), kw.get("input"), merge_stderr=(kw.get("stderr") == subprocess.STDOUT))
         if kw.get("check") and rc != 0:
             raise subprocess.CalledProcessError(rc, cmd, output=out, stderr=err)
         return subprocess.CompletedProcess(cmd, rc, out, err)
